@@ -10,6 +10,8 @@
 //	          parameters differ from the plain query parameters; oracle on the stored auth request (or on the *oidc.AuthRequest
 //	          handed to op.ParseRequestObject).
 //	interop - an assertion produced by the library's own client helpers, presented to the provider.
+//	overlap - ids / kids that contain separator characters (colliding once concatenated), 2-4 assertions / request objects on one
+//	          verifier, sequentially or while one verification is parked inside the storage's key lookup (overlap_test.go).
 //	repeat  - (TestRepeat only) long-lived helper instances called several times with real time gaps against providers
 //	          that allow only young assertions; every call's assertion must be accepted (repeat_test.go).
 package c14
@@ -88,7 +90,7 @@ type AssertCase struct {
 }
 
 type Case struct {
-	Kind    string            `json:"kind"` // assert | reqobj | interop | repeat
+	Kind    string            `json:"kind"` // assert | reqobj | interop | repeat | overlap
 	Router  string            `json:"router"`
 	Issuer  string            `json:"issuer"` // the provider's (static) issuer
 	Clients []vkit.ClientSpec `json:"clients"`
@@ -96,6 +98,7 @@ type Case struct {
 	R       *ReqObjCase       `json:"reqobj,omitempty"`
 	I       *InteropCase      `json:"interop,omitempty"`
 	Rp      *RepeatCase       `json:"repeat,omitempty"` // only generated by TestRepeat (real sleeps)
+	Ov      *OverlapCase      `json:"overlap,omitempty"`
 }
 
 // ---- shared generator pieces -----------------------------------------------------------
@@ -175,12 +178,14 @@ func genCase(t *rapid.T) Case {
 	c.Router = rapid.SampledFrom([]string{"provider", "legacy"}).Draw(t, "router")
 	c.Issuer = rapid.SampledFrom(issuers).Draw(t, "issuer")
 	c.Clients = genClients(t)
-	c.Kind = rapid.SampledFrom([]string{"assert", "assert", "assert", "assert", "assert", "assert", "reqobj", "reqobj", "reqobj", "interop"}).Draw(t, "kind")
+	c.Kind = rapid.SampledFrom([]string{"assert", "assert", "assert", "assert", "assert", "assert", "reqobj", "reqobj", "reqobj", "interop", "overlap"}).Draw(t, "kind")
 	switch c.Kind {
 	case "assert":
 		c.A = genAssert(t, &c)
 	case "reqobj":
 		c.R = genReqObj(t, &c)
+	case "overlap":
+		c.Ov = genOverlap(t, &c)
 	default:
 		c.I = genInterop(t, &c)
 	}
@@ -205,6 +210,8 @@ func run(c Case) (res *vkit.Result) {
 		runReqObj(c, res)
 	case c.Kind == "interop" && c.I != nil:
 		runInterop(c, res)
+	case c.Kind == "overlap" && c.Ov != nil:
+		runOverlap(c, res)
 	case c.Kind == "repeat" && c.Rp != nil:
 		runRepeat(c, res)
 	default:
@@ -272,10 +279,11 @@ var prop = vkit.Prop[Case]{
 		"x issuer x max age {none, 60 s, 1 h} x offset {0, 1, 5, 60 s} x option {none, SubjectCheck(accept any), SubjectCheck(refuse one subject), SubjectCheck(op.SubjectIsIssuer) [= default], SubjectCheck(nil) / literal without CheckSubject [no custom check configured: 'subject equals issuer' judged for soundness, acceptance not demanded, a nil-func panic counts as refusal]}; " +
 		"behind the endpoints either the stock provider (4/7) or an application provider that embeds *op.Provider and overrides JWTProfileVerifier with such a verifier (both routers); the statement's clauses are judged alike for every constructor, " +
 		"while the storage answers the key lookup normally (12/19) or with a fault: key material together with an error (3/19), or no key and a plain error / deadline / *oidc.Error / wrapped *oidc.Error (4/19); " +
-		"(reqobj) authorize request whose request object overrides 1-6 plain parameters with different values, signer / iss / aud (same near-misses of the issuer) / client_id (other client, unknown, near-misses of the requester's id by case / blank / cut / extension, issuer following or not) each agreeing or not, response_type of object and query (single- and multi-valued) in every relation: equal, absent / empty on either side, other value, proper subset, proper superset, disjoint, other case [all: disagree => object never honoured], permuted / repeated values / other spacing and query without response_type [not decided by the statement: grey], the same byte-level manglings of the compact serialisation, via HTTP (stored auth request) or op.ParseRequestObject, same key-lookup faults; " +
+		"(reqobj) authorize request whose request object overrides 1-6 plain parameters with different values, signer / iss / aud (same near-misses of the issuer) / client_id (other client, unknown, near-misses of the requester's id by case / blank / cut / extension, issuer following or not) each agreeing or not, response_type of object and query (single- and multi-valued) in every relation: equal, absent / empty on either side, other value, proper subset, proper superset, disjoint, other case [all: disagree => object never honoured], permuted / repeated values / other spacing and query without response_type [not decided by the statement: grey], the same byte-level manglings of the compact serialisation, via HTTP (stored auth request) or op.ParseRequestObject, same key-lookup faults; numeric max_age in object and plain query in every relation incl. the zero value (absent / 0 / positive on either side, equal, different) and members present with an empty string [a valid object that the library applies for some members while the plain value of another value-carrying member (max_age 0 included) stays in effect = violation; empty-string members and a valid object refused / ignored as a whole are not judged]; " +
+		"(overlap) registration of 2-4 (client id, kid) pairs over the atoms {app, web, k1} joined by separator characters {: / | . blank - _ #}, 3 of 4 built by cutting one string at its first and at its second separator so that different pairs coincide once concatenated, every pair with its own key; 2-4 assertions (VerifyJWTAssertion) / request objects (ParseRequestObject) - genuine, signed with another client's key, signed with an unregistered key - on ONE verifier / storage, all sequential or with one of them parked inside GetKeyByIDAndClientID (vkit.Gate, at entry or at exit) while the later ones run (a later one that does not return within 100 ms is taken to wait for the parked one, which is then released); schedule-independent oracle: signed with a key the storage does not hold for the named client => never accepted, genuine assertion => accepted, identity = iss; " +
 		"(interop) assertion built by client.SignedJWTProfileAssertion, oidc.GenerateJWTProfileToken, rp (JWT profile, full login + code exchange), rs, profile token source, tokenexchange with RSA PKCS#1 / PKCS#8 and P-256 PKCS#8 keys (asserted) and P-384 / Ed25519 keys (observed only; counted grey). " +
 		"non-trivial = some statement condition violated (a faulted key lookup counts as 'not signed by a key the storage holds') or inside a 2 s time window, or accepted although another client registers a different key under the same kid, or any interop case; " +
-		"distinct = (kind, use, router, verdict, violated / window sets, key relation, kid relation, alg, relative times, verifier constructor / settings / option, key-lookup fault | request-object conditions and overridden fields | helper, key format, use)",
+		"distinct = (kind, use, router, verdict, violated / window sets, key relation, kid relation, alg, relative times, verifier constructor / settings / option, key-lookup fault | request-object conditions and overridden fields | helper, key format, use | id shape, schedule, colliding separators, per-op class / use / overlapped / outcome)",
 	Gen: genCase,
 	Run: run,
 }
